@@ -340,7 +340,8 @@ def run(chk):
         [f for f in cg.reachable([writef]) if f.module is writef.module and f.cls is writef.cls]
     ok, found = False, False
     for tf in dict.fromkeys(cands):
-        su = chk.terms.summary(tf)
+        # (helpers of the same class are looked through: the loop over the logical files may sit in one)
+        su = chk.terms.inline(tf, 2, stop=lambda g_, tf=tf: g_.cls is not tf.cls or g_ is gen or g_.name == "__init__")
         gi = [i for i, e in enumerate(su.effects) if any(
             isinstance(t, tuple) and any(is_call(x, "generate_logical_records") for x in subterms(t))
             for t in (e.base, e.key, e.value))]
